@@ -143,6 +143,8 @@ func (c *caComp) Run(args []string) string {
 		return caPar(args)
 	case "rr":
 		return caRR(args)
+	case "own":
+		return caOwn(args)
 	case "new":
 		var opts []cache.Option
 		if thr := atoi(args[1]); thr != 0 {
